@@ -173,7 +173,8 @@ class Trailer(object):
         for v in flow:
             n += 1
             yield v
-        yield mapd(v, lambda x: x * 0 + n) if n else 0
+        # a new value with its own context (no aliasing between the values of a flow)
+        yield mapd(copy.deepcopy(v), lambda x: x * 0 + n) if n else 0
 
 
 class Dup(object):
@@ -182,7 +183,10 @@ class Dup(object):
     def run(self, flow):
         for v in flow:
             yield v
-            yield mapd(v, lambda x: x + 100)
+            # a new value with its own context: two values of a flow never share a context
+            # object (a stateful element that updates contexts in place, like Count, would
+            # otherwise show in the first value what happened to the second)
+            yield mapd(copy.deepcopy(v), lambda x: x + 100)
 
 
 def make_flow(sc):
